@@ -512,3 +512,69 @@ Proof.
   destruct (lookup nm kw) as [[v|]|]; reflexivity.
 Qed.
 End K.
+
+(* ---- calls that mix positional values and keywords ---- *)
+Section M.
+Variable V : Type.
+Notation slot := (option (option V)).
+
+(* positional values seen as keywords already processed: the first |pos| parameter names with their values *)
+Definition as_keywords (names : list string) (pos : list (option V)) : list (string * option V) := combine names pos.
+
+Lemma lookup_combine (names : list string) : NoDup names -> forall (pos : list (option V)) i nm, length pos <= length names ->
+  nth_error names i = Some nm ->
+  lookup nm (combine names pos) = if i <? length pos then Some (nth i pos None) else None.
+Proof.
+  induction 1 as [|x r Hx ND IH]; intros pos i nm L Hn; [destruct i; discriminate|].
+  destruct pos as [|p ps]; [cbn; reflexivity|]. cbn [combine lookup length]. cbn [length] in L.
+  destruct i as [|i]; cbn in Hn.
+  - injection Hn as ->. now rewrite String.eqb_refl.
+  - assert (nm <> x) by (intros ->; apply Hx; eapply nth_error_In; exact Hn).
+    destruct (String.eqb_spec nm x) as [E|_]; [contradiction|]. rewrite (IH ps i nm ltac:(lia) Hn).
+    change (S i <? S (length ps)) with (i <? length ps). reflexivity.
+Qed.
+
+Lemma agrees_positional (names : list string) (pos : list (option V)) : NoDup names -> length pos <= length names ->
+  agrees V names (map Some pos ++ repeat None (length names - length pos)) (as_keywords names pos).
+Proof.
+  intros ND L. split; [rewrite app_length, map_length, repeat_length; lia|].
+  intros i nm Hn. unfold as_keywords. rewrite (lookup_combine names ND pos i nm L Hn).
+  destruct (Nat.ltb_spec i (length pos)) as [Hi|Hi].
+  - rewrite app_nth1 by (now rewrite map_length). rewrite (nth_indep _ None (Some None)) by (now rewrite map_length).
+    now rewrite (map_nth Some).
+  - rewrite app_nth2 by (now rewrite map_length). apply nth_repeat_none.
+Qed.
+
+(* T(v1..vk, name=v, ...): the keywords may not name a parameter that a positional value already filled (Python's "multiple values") *)
+Theorem bind_mixed (fields : list (string * V)) pos kw : NoDup (map fst fields) -> length pos <= length fields ->
+  NoDup (map fst (as_keywords (map fst fields) pos ++ kw)) -> (forall k, In k (map fst kw) -> In k (map fst fields)) ->
+  exists args, bind_args V (generate_init V fields) pos kw = Ok args /\
+    forall i nm d, nth_error fields i = Some (nm, d) ->
+      nth i args None = match lookup nm (as_keywords (map fst fields) pos ++ kw) with Some v => v | None => None end.
+Proof.
+  intros NDf L NDk Hin. unfold bind_args, generate_init. cbn [co_varnames tl]. rewrite map_length.
+  destruct (Nat.ltb_spec (length fields) (length pos)) as [C|_]; [lia|].
+  change (fold_left _ kw (Ok ?s)) with (fold_left (kw_step V (map fst fields)) kw (Ok s)).
+  destruct (kw_fold V (map fst fields) NDf kw (as_keywords (map fst fields) pos) (map Some pos ++ repeat None (length fields - length pos))) as [sl' [F [L' A]]].
+  - rewrite <- (map_length fst fields). apply agrees_positional; [exact NDf|now rewrite map_length].
+  - exact NDk.
+  - exact Hin.
+  - rewrite F. cbn [bind]. eexists. split; [reflexivity|].
+    intros i nm d Hn. assert (Hn' : nth_error (map fst fields) i = Some nm) by (rewrite nth_error_map, Hn; reflexivity).
+    rewrite <- (A i nm Hn'). set (f := fun s : slot => match s with Some a => a | None => None end).
+    change (nth i (map f sl') (f None) = f (nth i sl' None)). apply map_nth.
+Qed.
+
+Theorem mixed_construction (fields : list (string * V)) pos kw : NoDup (map fst fields) -> length pos <= length fields ->
+  NoDup (map fst (as_keywords (map fst fields) pos ++ kw)) -> (forall k, In k (map fst kw) -> In k (map fst fields)) ->
+  exists args, bind_args V (generate_init V fields) pos kw = Ok args /\
+    exists attrs, run_init V (generate_init V fields) args = Ok attrs /\
+    forall i nm d, nth_error fields i = Some (nm, d) ->
+      lookup nm attrs = Some (match lookup nm (as_keywords (map fst fields) pos ++ kw) with Some (Some v) => v | _ => d end).
+Proof.
+  intros NDf L NDk Hin. destruct (bind_mixed fields pos kw NDf L NDk Hin) as [args [B N]].
+  exists args. split; [exact B|]. eexists. split; [apply init_assigns_arguments_or_defaults|].
+  intros i nm d Hn. rewrite (constructed_field_is_argument_or_default V fields args NDf i nm d Hn), (N i nm d Hn).
+  destruct (lookup nm (as_keywords (map fst fields) pos ++ kw)) as [[v|]|]; reflexivity.
+Qed.
+End M.
